@@ -28,6 +28,9 @@ inductive Ty where
   | chan (t : Ty)
   | map (k v : Ty)
   | named (o : Nat) (args : Ty)              -- package-level named type `o` with type arguments `args`
+  | con (g : Nat) (args : Ty)                -- unnamed composite type with ATTRIBUTES: `g` encodes the constructor and everything that is
+                                             -- part of its identity besides the component types (channel direction, array length,
+                                             -- variadic / number of parameters, struct field names, tags, embeddedness); `args` = components
   | lnamed (o : Nat) (args : Ty) (nu : Ty)   -- named type declared inside a generic function: its Go identity includes the
                                              -- type arguments `nu` of the enclosing function instance
   | tnil
@@ -78,6 +81,7 @@ def Ty.substC (N θ : List Ty) : Ty → Ty
   | .chan t => .chan (substC N θ t)
   | .map k v => .map (substC N θ k) (substC N θ v)
   | .named o a => .named o (substC N θ a)
+  | .con g a => .con g (substC N θ a)          -- subst.go:105-147: rebuilt with the SAME direction / length / variadicity / fields
   | .lnamed o a _ => .lnamed o (substC N θ a) .tnil
   | .tnil => .tnil
   | .tcons h t => .tcons (substC N θ h) (substC N θ t)
@@ -96,6 +100,7 @@ def Ty.genericC (mentions : Nat → Bool) : Ty → Bool
   | .chan t => genericC mentions t
   | .map k v => genericC mentions k || genericC mentions v
   | .named _ a => genericC mentions a
+  | .con _ a => genericC mentions a
   | .lnamed o a _ => genericC mentions a || mentions o
   | .tnil => false
   | .tcons h t => genericC mentions h || genericC mentions t
